@@ -42,7 +42,7 @@ type c17plan struct {
 }
 
 func c17(c *wk.Ctx) {
-	c.Note("rule", "each plan: one endpoint over a harness stream, 2-12 goroutines released by a barrier doing PRNG-chosen MakeHandler / AddHandler / ReceiveAny (filters: never/always/pattern x keep/self-remove after n, with scheduling yields inside the filter), RemoveHandler (live, stale, unknown, negative ids), peer frames, then local Close() or peer close, possibly concurrent with further operations; in a quarter of the plans the stream's Close reports an error although it closes. Oracle at quiescence (decided by the goroutine-state quiescence detector, not a timeout): every handler whose MakeHandler returned before shutdown started has closer==1 and queue closed once; others <=1; no filter match after the closer ran; RemoveHandler of unknown/removed ids returns an error; an id is never handed out while its previous holder is still open; no panic (child crash), no deadlock; stream blocked-reply = the connection is shut down (locally or by the peer) while the endpoint is blocked writing a 'consumer blocked' reply to a peer that does not read (bounded harness stream): the shutdown must complete and every handler be closed once; in half of these plans other goroutines first remove the handlers (some of which leave by themselves with the message being refused) and register new ones while the write is blocked, then the peer resumes reading. Stream register-burst = 12 rounds per case of 4-16 goroutines spinning on a barrier and then registering 1-4 handlers each on a fresh endpoint (some earlier handlers removed first, so that freed slots are reused): identifiers held at the same time are pairwise distinct and Close() runs every close callback once. Stream unknown-ids = with 0-25 handlers registered and a few removed, RemoveHandler of every id from -3 to n+24 that is not held returns an error, does not panic and closes nothing. Distinct non-trivial = distinct plans in which at least two goroutines operated on the handler table and shutdown closed at least one handler.")
+	c.Note("rule", "each plan: one endpoint over a harness stream, 2-12 goroutines released by a barrier doing PRNG-chosen MakeHandler / AddHandler / ReceiveAny (filters: never/always/pattern x keep/self-remove after n, with scheduling yields inside the filter), RemoveHandler (live, stale, unknown, negative ids), peer frames, then a shutdown - local Close(), peer close between two frames, both, peer close inside a frame (header or payload cut), a transport error which is not end-of-file (reset), or a frame the endpoint refuses (wrong magic) -, possibly concurrent with further operations; in a quarter of the plans the stream's Close reports an error although it closes. Oracle at quiescence (decided by the goroutine-state quiescence detector, not a timeout): every handler whose MakeHandler returned before shutdown started has closer==1 and queue closed once; others <=1; no filter match after the closer ran; RemoveHandler of unknown/removed ids returns an error; an id is never handed out while its previous holder is still open; no panic (child crash), no deadlock; stream blocked-reply = the connection is shut down (locally or by the peer) while the endpoint is blocked writing a 'consumer blocked' reply to a peer that does not read (bounded harness stream): the shutdown must complete and every handler be closed once; in half of these plans other goroutines first remove the handlers (some of which leave by themselves with the message being refused) and register new ones while the write is blocked, then the peer resumes reading. Stream register-burst = 12 rounds per case of 4-16 goroutines spinning on a barrier and then registering 1-4 handlers each on a fresh endpoint (some earlier handlers removed first, so that freed slots are reused): identifiers held at the same time are pairwise distinct and Close() runs every close callback once. Stream unknown-ids = with 0-25 handlers registered and a few removed, RemoveHandler of every id from -3 to n+24 that is not held returns an error, does not panic and closes nothing. Distinct non-trivial = distinct plans in which at least two goroutines operated on the handler table and shutdown closed at least one handler.")
 	c.Cases("plan", c.Pick(8000, 600000), func(i int, rng *rand.Rand) { c17one(c, i, rng) })
 	c.Cases("unknown-ids", c.Pick(300, 20000), func(i int, rng *rand.Rand) { c17unknown(c, i, rng) })
 	c.Cases("register-burst", c.Pick(150, 10000), func(i int, rng *rand.Rand) { c17burst(c, i, rng) })
@@ -606,7 +606,12 @@ func c17one(c *wk.Ctx, i int, rng *rand.Rand) {
 
 	workers := 2 + rng.Intn(11)
 	opsPer := 3 + rng.Intn(12)
-	shutdownBy := rng.Intn(3) // 0 local Close, 1 peer close, 2 both
+	// 0 local Close, 1 peer close, 2 both, 3 the peer closes in the middle of a frame (inside the header or
+	// inside the payload), 4 the transport fails with an error which is not end-of-file (connection reset),
+	// 5 the peer sends a frame the endpoint must refuse (wrong magic) and keeps its side open
+	shutdownBy := rng.Intn(6)
+	cutFrame := rc.Frame(rc.Header{Magic: rc.Magic, ID: rng.Uint32(), Type: uint8(1 + rng.Intn(8)), Action: uint32(rng.Intn(8)), Service: 1, Object: 1}, make([]byte, 1+rng.Intn(60)))
+	cutAt := 1 + rng.Intn(len(cutFrame)-1)
 	shutdownWorker := rng.Intn(workers)
 	shutdownAt := rng.Intn(opsPer + 1)
 	// a few handlers registered upfront
@@ -633,6 +638,15 @@ func c17one(c *wk.Ctx, i int, rng *rand.Rand) {
 					}
 					if shutdownBy == 1 || shutdownBy == 2 {
 						b.Close()
+					}
+					switch shutdownBy {
+					case 3:
+						b.Write(cutFrame[:cutAt])
+						b.Close()
+					case 4:
+						a.Break(errors.New("read: connection reset by peer"))
+					case 5:
+						b.Write(rc.Frame(rc.Header{Magic: 0x42dead43, ID: 1, Type: 1, Service: 1, Object: 1}, nil))
 					}
 					continue
 				}
@@ -720,7 +734,7 @@ func c17one(c *wk.Ctx, i int, rng *rand.Rand) {
 			continue
 		}
 		seen[key] = true
-		c.Viol("plan", i, key, what, map[string]interface{}{"workers": workers, "ops_per_worker": opsPer, "shutdown": []string{"local Close", "peer close", "both"}[shutdownBy], "handlers": len(all), "frames": frames})
+		c.Viol("plan", i, key, what, map[string]interface{}{"workers": workers, "ops_per_worker": opsPer, "shutdown": c17shutdowns[shutdownBy], "handlers": len(all), "frames": frames})
 	}
 	if !a.Closed() {
 		ep.Close()
@@ -729,13 +743,16 @@ func c17one(c *wk.Ctx, i int, rng *rand.Rand) {
 	c.Count("handlers", int64(len(all)))
 	c.Count("frames", int64(frames))
 	c.Count("closed_by_shutdown", int64(closedByShutdown))
+	c.Count("plans_shut_down_by: "+c17shutdowns[shutdownBy], 1)
 	if workers >= 2 && closedByShutdown >= 1 {
 		c.Nontrivial(wk.Hash64("C17", i))
 	}
 	if c.WantSample() && i%100 == 0 {
-		c.Sample(map[string]interface{}{"plan": i, "workers": workers, "ops_per_worker": opsPer, "shutdown": []string{"local Close", "peer close", "both"}[shutdownBy], "handlers": len(all), "frames": frames, "closed_by_shutdown": closedByShutdown})
+		c.Sample(map[string]interface{}{"plan": i, "workers": workers, "ops_per_worker": opsPer, "shutdown": c17shutdowns[shutdownBy], "handlers": len(all), "frames": frames, "closed_by_shutdown": closedByShutdown})
 	}
 }
+
+var c17shutdowns = []string{"local Close", "peer close", "both", "peer close inside a frame", "transport error (reset)", "refused frame (wrong magic)"}
 
 func clipDump(d string) string {
 	if len(d) > 8000 {
